@@ -9,6 +9,8 @@ Decided:
                    is true; the global-pool overloads force wait = true.
   C15.caller-chunk with wait the caller runs the last chunk (index numThreads-1) and exactly the other
                    numThreads-1 are scheduled; without wait all numThreads are scheduled.
+  C15.task-captures the chunk task lambdas returned by the scheduleBulk generators capture nothing by
+                   reference (with wait = false they outlive for_each_n and the caller's functor).
 """
 import re
 from lib.facts import Pos, const_val, expr_str, is_call, strip_casts, subexprs
@@ -172,3 +174,28 @@ def run(R):
              "chunk count handed to the pool does not match the caller's share (wait: %s, no wait: %s)" % (sorted(map(str, verdict[True])), sorted(map(str, verdict[False]))),
              sitekey="numToSchedule", why="each chunk must be run by exactly one party (a worker or the caller)")
     R.need("C15.caller-chunk", n, 2, "for_each_n_schedule overloads")
+    task_captures(R)
+
+
+def task_captures(R):
+    """C15.task-captures: with wait = false the queued chunk tasks outlive for_each_n(): they own
+    copies of what they use. The task lambda returned by each scheduleBulk generator in
+    for_each_n_schedule captures nothing by reference (a reference to the caller's functor dangles
+    as soon as the caller returns)."""
+    F = R.F
+    n = 0
+    for fn in F.fns:
+        # generator lambdas: direct children of for_each_n_schedule that are passed to scheduleBulk
+        if not (fn.is_lambda and fn.parent is not None and not fn.parent.is_lambda and fn.parent.qname == "dispenso::detail::for_each_n_schedule"):
+            continue
+        for pos, ev in fn.events():
+            if ev.get("k") != "return":
+                continue
+            for nd in subexprs(ev):
+                if isinstance(nd, dict) and nd.get("k") == "lambda":
+                    n += 1
+                    refs = [c.get("name") for c in nd.get("captures", []) if c.get("byref") and c.get("name") != "this"]
+                    R.ob("C15.task-captures", fn, ev, not refs, "the queued chunk task owns copies of everything it uses" if not refs else
+                         "the queued chunk task captures %s by reference: with wait = false it runs after for_each_n() has returned and the caller's object is gone" % ", ".join(refs),
+                         sitekey="task-lambda", why="all applications must have finished -- on live objects -- when the task set's wait() returns")
+    R.need("C15.task-captures", n, 2, "chunk task lambdas of for_each_n_schedule")
